@@ -173,4 +173,30 @@ def mon (st : Mon) (op : List String) (outs : List (List String)) : Mon × List 
 
 def monitor : Monitor := { σ := Mon, init := {}, step := mon }
 
+/-! ### the tasks where they are used: a direction of a `Pipe`, the handshake's `pipeSync` (harness/proxy/verif_c12pipe_test.go) -/
+
+def kv (toks : List String) (k : String) : String := (getField toks k).getD ""
+
+def monPipe (_ : Unit) (op : List String) (outs : List (List String)) : Unit × List String :=
+  let hung := (outs.filter (·.head? = some "hung")).map fun l => "PROP the history did not come to rest: " ++ String.intercalate " " l
+  let cs := match op with
+    | "dir" :: rest =>
+      let st := (outs.find? (·.head? = some "stopped")).getD []
+      let rs := (outs.find? (·.head? = some "restarted")).getD []
+      (if kv st "waited" = "1" then [] else [s!"PROP the wait on Stop() of a pipe direction stopped in {kv rest "stop"} did not complete: a waiter is left blocked"]) ++
+      (if kv st "done" = "0" then [] else [s!"PROP completion was signalled for a pipe direction that was stopped (in {kv rest "stop"}, parent context alive, error {kv st "err"}): the function did not return on its own"]) ++
+      (if kv rs "relayed" = "1" then [] else [s!"PROP a pipe direction stopped in {kv rest "stop"} and started again does not relay: the start was dropped"])
+    | "sync" :: rest =>
+      let en := (outs.find? (·.head? = some "ended")).getD []
+      let e := kv rest "end"
+      if e = "stop" then
+        (if kv en "waited" = "1" then [] else [s!"PROP the wait on Stop() of the handshake's pipe (next message queued: {kv rest "queued"}) did not complete"]) ++
+        (if kv en "done" = "0" then [] else ["PROP completion was signalled for a handshake pipe that was stopped"])
+      else
+        (if kv en "done" = "1" then [] else [s!"PROP the handshake's pipe ended ({e}, next message queued: {kv rest "queued"}) and completion was not signalled: whoever waits for the handshake is left blocked"])
+    | _ => []
+  ((), hung ++ cs)
+
+def monitorPipe : Monitor := { σ := Unit, init := (), step := monPipe }
+
 end PRV.Driver.C12
